@@ -43,6 +43,8 @@ OPTION_SITES = [
     ("extra_files", [False, True]),
     # the directory FORD is started from: the project directory, a directory directly below `/`, the project's parent
     ("cwd", ["project", "/tmp", "parent"]),
+    # texts of the project file converted after all the comments (summary, author description) in a project whose comments carry Markdown footnotes
+    ("front_texts", [False, True]),
 ]
 
 
@@ -70,7 +72,10 @@ def option_base_shapes():
 def build_and_check(st: Stats, shape, opts, pages, stratum, feats, move=False):
     o = dict(opts)
     extra = bool(o.pop("extra_files", False))
-    files = projgen.make_project(pages=pages, extra_files=extra, **shape)
+    front = bool(o.pop("front_texts", False))
+    files = projgen.make_project(pages=pages, extra_files=extra, footnotes=front, **shape)
+    if front:
+        o.update(summary="A *short* summary of the project.", author="Some One", author_description="Writes **Fortran** and notes.")
     if extra:
         o["extra_filetypes"] = [dict(extension="sh", comment="#"), dict(extension="yml", comment="#")]
     if pages is not None:
